@@ -3,6 +3,7 @@ import XsdataModel.Py.TblEnv
 import XsdataModel.Conv.Factory
 import XsdataModel.Conv.TblCEnv
 import XsdataModel.Conv.FloatRepr
+import XsdataModel.Conv.Strptime
 open Lean Proto Py Xs.Conv Xs.Dates
 
 namespace OpsConv
@@ -195,6 +196,21 @@ def run (op : String) (a : Json) : Option (Except String Json) :=
   | "conv.from_value" => some do
       let atm ← parseAtom (getField a "v")
       pure <| ok (jStr (fromValue tblEnv atm))
+  | "conv.strptime" => some do
+      let s ← getStr a "s"; let f ← getStr a "fmt"
+      match strptime tblEnv s f with
+      | .ok v => pure <| ok (jList jInt [v.year, v.month, v.day, v.hour, v.minute, v.second, v.micro])
+      | .err => pure <| err "ValueError"
+      | .unsupported => .error "format outside the strptime model"
+  | "conv.strftime" => some do
+      let f ← getStr a "fmt"
+      match ← optInts (getField a "v") with
+      | [some y, some mo, some d, some h, some mi, some sec, some us] =>
+        match strftime ⟨y, mo, d, h, mi, sec, us⟩ f with
+        | .ok r => pure <| ok (jStr r)
+        | .err => pure <| err "ValueError"
+        | .unsupported => .error "format outside the strftime model"
+      | _ => .error "datetime arity"
   | "conv.float_repr" => some do
       let s ← getStr a "s"
       pure <| match pyFloatRepr tblEnv s with
